@@ -249,3 +249,107 @@ def const_ttno(ttno):
     with symbolic_mode_tree():
         new = TTNO(ttno.basis, ttno.terms, root=nodes[0])
     return new
+
+
+KERNEL_STUBS = [
+    "renormalizer.mps.svd_qn.optimized_svd, scipy.linalg.qr / rq as seen from svd_qn: replaced by *trivial exact factorisations* of the block "
+    "(QR: Q = block, R = 1 for tall blocks, Q = 1, R = block for wide ones; SVD: U = block diag(1/s), S = s, V^T = 1 resp. U = 1, S = s, V^T = diag(1/s) block "
+    "with fixed distinct powers of two s): block = factor product holds exactly, orthonormality of the factors does not - the obligations decided in this "
+    "mode (represented object unchanged, labels valid, centre/direction bookkeeping) do not depend on it",
+    "np.linalg.norm as seen from renormalizer.mps.mp returns the constant 2 on symbolic arrays (the operator branch of _update_ms rescales the two factors by a "
+    "norm and its inverse: the product must be invariant for any positive scalar)",
+    "MatrixProduct.check_left_canonical / check_right_canonical return True (compress asserts canonical input; with trivial factorisations the tensors are not isometries)",
+]
+
+
+@contextlib.contextmanager
+def kernel_stub_mode():
+    """symbolic_mode + factorisation kernels replaced by trivial exact factorisations (modular verification of the bookkeeping around them)"""
+    import renormalizer.mps.svd_qn as sq
+    import renormalizer.mps.mp as mp_mod
+    from fractions import Fraction
+
+    def svals(k):
+        return np.array([2.0 ** (2 - i) for i in range(k)])      # 4, 2, 1, 1/2, ...: distinct, exactly representable
+
+    def stub_svd(a, full_matrices, opt_full_matrices):
+        if full_matrices:
+            raise NotImplementedError("kernel stub: full_matrices=True is outside the stubbed contract")
+        m, n = a.shape
+        k = min(m, n)
+        s = svals(k)
+        inv = np.array([Poly.const(Fraction(1) / Fraction(float(x))) for x in s], dtype=object)
+        a = np.asarray(a, dtype=object)
+        if m >= n:
+            return a * inv[None, :], s, np.array([[Poly.const(1 if i == j else 0) for j in range(n)] for i in range(n)], dtype=object)
+        return np.array([[Poly.const(1 if i == j else 0) for j in range(m)] for i in range(m)], dtype=object), s, inv[:, None] * a
+
+    def eye(n):
+        return np.array([[Poly.const(1 if i == j else 0) for j in range(n)] for i in range(n)], dtype=object)
+
+    class LinalgStub:
+        LinAlgError = __import__("scipy").linalg.LinAlgError
+
+        @staticmethod
+        def qr(a, mode="full", **kw):
+            if mode != "economic":
+                raise NotImplementedError("kernel stub: only economic QR")
+            a = np.asarray(a, dtype=object)
+            m, n = a.shape
+            return (a, eye(n)) if m >= n else (eye(m), a)
+
+        @staticmethod
+        def rq(a, mode="full", **kw):
+            if mode != "economic":
+                raise NotImplementedError("kernel stub: only economic RQ")
+            a = np.asarray(a, dtype=object)
+            m, n = a.shape
+            return (eye(m), a) if m <= n else (a, eye(n))
+
+        def __getattr__(self, name):
+            import scipy.linalg
+            return getattr(scipy.linalg, name)
+
+    class ScipyStub:
+        linalg = LinalgStub()
+
+    with symbolic_mode():
+        saved = (sq.optimized_svd, sq.scipy, mp_mod.MatrixProduct.check_left_canonical, mp_mod.MatrixProduct.check_right_canonical)
+        proxy = mp_mod.np           # NPProxy installed by symbolic_mode
+        orig_linalg = np.linalg
+
+        class LinalgNP:
+            def __getattr__(self, name):
+                return getattr(orig_linalg, name)
+
+            @staticmethod
+            def norm(x, *a, **k):
+                if isinstance(x, np.ndarray) and x.dtype == object:
+                    return 2.0
+                return orig_linalg.norm(x, *a, **k)
+        type(proxy).linalg = LinalgNP()
+        sq.optimized_svd, sq.scipy = stub_svd, ScipyStub()
+        mp_mod.MatrixProduct.check_left_canonical = lambda self, *a, **k: True
+        mp_mod.MatrixProduct.check_right_canonical = lambda self, *a, **k: True
+        try:
+            yield
+        finally:
+            sq.optimized_svd, sq.scipy, mp_mod.MatrixProduct.check_left_canonical, mp_mod.MatrixProduct.check_right_canonical = saved
+            try:
+                del type(proxy).linalg
+            except AttributeError:
+                pass
+
+
+@contextlib.contextmanager
+def kernel_stub_mode_tree():
+    """kernel_stub_mode + tree shims; TTNS.check_canonical (asserted by compress) returns True for the same reason as in the chain case"""
+    import renormalizer.tn.tree as tree_mod
+    with kernel_stub_mode():
+        with symbolic_mode_tree():
+            saved = tree_mod.TTNS.check_canonical
+            tree_mod.TTNS.check_canonical = lambda self, *a, **k: True
+            try:
+                yield
+            finally:
+                tree_mod.TTNS.check_canonical = saved
